@@ -3,7 +3,7 @@
     deserialize, from_element, complex_from_element, array_from_element, *_from_element),
     spyne/protocol/soap/soap11.py (_parse_xml_string, _from_soap, Soap11.decompose_incoming_envelope,
     deserialize) and spyne/protocol/_base.py (generate_method_contexts, get_call_handles) does it.
-    Definitions only.  [except] clauses, guards and raised fault classes come from Gen/Pipeline.v.
+    Definitions only.  [except] clauses, guards and raised fault classes come from Gen/ReqPipe.v.
 
     The document is what lxml hands over: elements with their in-scope namespace map,
     attributes, text and children, and the content-only nodes (comment, processing
